@@ -92,6 +92,8 @@ def run_one(stratum, seed, index):
         return gen.fork3_run(seed, index)
     if stratum == "big":
         return gen.big_run(seed, index)
+    if stratum == "kwpairs":
+        return gen.kwpair_run(seed, index)
     if stratum == "inject":
         return gen.inject_template_run(seed, index)
     if stratum == "injectall":
@@ -553,6 +555,7 @@ def quick_plan(seed, args):
         ("slowpairs", list(range(gen.N_SLOWPAIRS))),
         ("fork3", list(range(gen.N_FORK3))),
         ("big", list(range(gen.N_BIG))),
+        ("kwpairs", list(range(gen.N_KWPAIRS))),
         ("random", list(range(n_random))),
     ]
 
@@ -667,6 +670,7 @@ def thorough_batch(pool, seed, args, batch):
     tasks += list(chunks("slowpairs", seed, range(gen.N_SLOWPAIRS), want_fp=True))
     tasks += list(chunks("fork3", seed, range(gen.N_FORK3), want_fp=True))
     tasks += list(chunks("big", seed, range(gen.N_BIG)))
+    tasks += list(chunks("kwpairs", seed, range(gen.N_KWPAIRS)))
     n_all = (gen.N_INJECT_TEMPLATES // len(gen.INJECT_NTH)) * gen.INJECT_ALL_CAP
     tasks += list(chunks("injectall", seed, range(n_all), size=CHUNK * 4))
     run_tasks(pool, tasks, batch, max_violating_chunks=60)
@@ -739,6 +743,8 @@ def write_evidence(tier, seed, batch, wall, workers, n_viol, klines, det_info, s
         "look_alike_crystal_with_shifted_sites": s["fork:stranger"],
         "handle_dropped_and_garbage_collected": s["fork:drop"],
         "different_crystal_sharing_name_cell_and_group_number": s["fork:other"],
+        "look_alike_crystal_queried_with_keyword_arguments": s["fork:stranger_kw"],
+        "steps_skipped_as_not_applicable_to_their_handle": s["skipped_not_applicable_to_handle"],
         "derived_crystals_as_handles": s["fork:derive_P1"] + s["fork:derive_cif"] + s["fork:derive_res"],
         "forks_taken_with_memo_present": s["fork_with_memo"],
         "write_error_before_any_byte": sum(v for k, v in s.items() if k.startswith("wfail:before")),
